@@ -158,8 +158,9 @@ enum {
   X(void, jv_wk_sk_set_bidx, (void* sk, int i, uint32_t idx)) \
   X(void, jv_wk_sk_set_barray, (void* sk, void* barray)) \
   X(void, jv_wk_params_set_harray, (void* p, void* harray)) \
-  X(void, jv_apair_set, (void* arr, size_t i, const void* g1a, const void* g2a)) \
-  X(void, jv_ppair_set, (void* arr, size_t i, const void* g1a, const void* g2p)) \
+  X(void, jv_apair_set, (int view, void* arr, size_t i, const void* g1a, const void* g2a)) \
+  X(void, jv_ppair_set, (int view, void* arr, size_t i, const void* g1a, const void* g2p)) \
+  X(size_t, jv_pair_size, (int view, int prepared)) \
   /* ---- bls12_381 API, both views ---- */ \
   X(void, jv_zp_random, (int view, void* out, jv_rand_fn rnd)) \
   X(void, jv_zp_from_hash, (int view, void* out, const uint8_t* hash32)) \
